@@ -182,8 +182,8 @@ def run_case(case, want_log=False):
 # ---------------------------------------------------------------------------
 def load_known():
     path = os.path.join(VERIF, "known_findings.json")
-    if not os.path.exists(path):
-        return []
+    if not os.path.exists(path) or os.environ.get("VERIF_NO_KNOWN"):
+        return []           # VERIF_NO_KNOWN=1: report known findings as violations too (used to replay them)
     with open(path) as f:
         return json.load(f).get("findings", [])
 
